@@ -31,6 +31,102 @@ PROPS["C01"] = dict(
 )
 
 
+PROPS["C02"] = dict(
+    level="exploration",
+    rule=("cases are histories of 1..40 enqueue_call / send_call / send_reply / send_error / flush operations "
+          "on one connection with a write half that records every write call; message values come from a "
+          "generator issuing every serde data-model call, some poisoned (non-string map key, Serialize impl "
+          "that fails); sizes are steered with the write-position hook so that every free-space value "
+          "0..=600 is met at a message start; a history is distinct by the hash of its (operation, size) "
+          "sequence; every history contains at least one message"),
+    oracle=("model = list of serde_json::to_vec(msg)+NUL for accepted messages: each flush/send issues exactly one "
+            "write equal to the concatenation of the pending list; empty flush writes nothing; acceptance agrees "
+            "with serde_json; refused messages leave no bytes; total stream == concatenation of accepted messages"),
+    assumptions=["serde_json::to_vec is the reference encoding", "transport write errors are out of scope here (C09)"],
+    floor_quick=50_000, floor_thorough=1_000_000,
+    steps=[
+        dict(layer="native", monitor="c02", shards_quick=4, shards_thorough=16, budget_quick=48_000, budget_thorough=6_000_000),
+        dict(layer="miri", monitor="c02", shards_quick=8, shards_thorough=16, budget_quick=32, budget_thorough=960),
+        dict(layer="asan", monitor="c02", shards_thorough=8, budget_thorough=400_000, tier="thorough"),
+    ],
+)
+
+PROPS["C03"] = dict(
+    level="exploration",
+    rule=("exhaustive sub-domains (every Unicode scalar as 1-char string, char, string key and char key; all pairs of 48 "
+          "escape-relevant code points; all i8/u8/i16/u16 as values and keys; thorough: all 2^32 f32 bit patterns) "
+          "plus integer boundary sets, random f64/f32 and random nested trees issuing every serde data-model call, "
+          "encoded through the cfg(zlink_verif) to_slice hook at exact, short and all buffer lengths 0..=len+2 and "
+          "through send_error/send_reply behind fillers that vary the free space; distinct = distinct random "
+          "trees (hash of Debug) + members of the exhaustive domains"),
+    oracle=("success => bytes == serde_json::to_vec, valid UTF-8, no byte < 0x20; buffer shorter than the encoding => "
+            "BufferTooSmall, never Ok; canary bytes after the slice untouched; zlink refusing is legitimate only if "
+            "serde_json refuses too or the value has a map key that is not string/char/integer/unit-variant; a "
+            "refused value leaves no bytes on the wire"),
+    assumptions=["serde_json::to_vec is the reference encoder"],
+    floor_quick=2_000_000, floor_thorough=100_000_000,
+    exhaustive_possible=False,
+    steps=[
+        dict(layer="native", monitor="c03", shards_quick=8, shards_thorough=16),
+        dict(layer="miri", monitor="c03", shards_quick=8, shards_thorough=16),
+    ],
+)
+
+PROPS["C04"] = dict(
+    level="exploration",
+    rule=("the full matrix is enumerated, not sampled: ~500 reply frames (success +-parameters +-continues; declared "
+          "errors with right/wrong/missing/extra parameters; undeclared names; every org.varlink.service error with "
+          "right and wrong parameters; non-string error members; all member orders; an unknown extra member) x 8 "
+          "(parameter type, error type) pairs x {receive_reply, call_method, generated proxy method}; distinct = "
+          "(frame, types, path)"),
+    oracle=("from the frame as a serde_json::Value: no error member => success iff parameters decode as P; error names a "
+            "standard service error that decodes => Err(VarlinkService(e)); else decodes directly as E => Ok(Err(e)); "
+            "else anything but Ok(Ok(_)); `error: null` is not judged"),
+    assumptions=["direct serde_json decoding with the caller's own types defines 'recognised'"],
+    floor_quick=10_000, floor_thorough=10_000,
+    exhaustive_possible=True,
+    steps=[
+        dict(layer="native", monitor="c04", shards_quick=2, shards_thorough=2),
+        dict(layer="miri", monitor="c04", shards_quick=2, shards_thorough=8, tier="thorough"),
+    ],
+)
+
+PROPS["C07"] = dict(
+    level="exploration",
+    rule=("cases are (frame sequence as in C01, chunking, number of Pending read events before each chunk, subset of "
+          "suspension points at which the receive future is dropped and re-created); exhaustive over all 2^12 "
+          "(thorough 2^14) subsets for streams with that many suspension points, every-k-th for every k, all, and "
+          "random subsets beyond; also call_method abandoned in its receive phase; only cases with >= 1 "
+          "cancellation count as distinct non-trivial"),
+    oracle="sequence of results == C01 reference sequence (serde_json on NUL-split frames, then end-of-stream)",
+    assumptions=["the scripted read half is itself cancel-safe (returns Pending without consuming data)"],
+    floor_quick=50_000, floor_thorough=1_000_000,
+    steps=[
+        dict(layer="native", monitor="c07", shards_quick=4, shards_thorough=16),
+        dict(layer="miri", monitor="c07", shards_quick=8, shards_thorough=16, budget_quick=16, budget_thorough=64),
+    ],
+)
+
+PROPS["C17"] = dict(
+    level="exploration",
+    rule=("inbound: wire sizes (frame + NUL, or unterminated) delivered under several chunkings; outbound: (write "
+          "position, message length) pairs; production-limit build: 100 MiB+2 steps unterminated, 100 MiB-2 accepted, "
+          "growth-step boundaries; lowered-limit build (cfg zlink_verif_small_buf, 64 KiB): every wire size up to "
+          "limit+2*step+2 and every end position near each multiple of 256 and in the last 2 KiB before the limit; "
+          "distinct = (size, chunking) / (pos, len)"),
+    oracle=("wire size < limit => accepted with intact content; >= limit+step => BufferOverflow (never a hang, other error "
+            "or acceptance); in between either; outbound refusal writes nothing, earlier messages are flushed intact, "
+            "the connection stays usable; hook: buffer length never exceeds limit+step; peak heap stays within 3x limit"),
+    assumptions=["the lowered limit exercises the same comparison sites as the production constant (compile-time cfg)"],
+    floor_quick=20_000, floor_thorough=100_000,
+    steps=[
+        dict(layer="native", monitor="c17", shards_quick=4, shards_thorough=8),
+        dict(layer="small", monitor="c17", shards_quick=12, shards_thorough=16),
+        dict(layer="miri", monitor="c17", shards_quick=6, shards_thorough=6, package="zv", extra=None, tier="thorough"),
+    ],
+)
+
+
 LEVEL_TEXT = {}
 
 def _na():
